@@ -62,6 +62,30 @@ def small(e, cap=40):
 
 def reset_size_cache():
     _SIZE.clear()
+    _TAINT.clear()
+
+
+_TAINT = {}
+SECRET_TAG = '$S'
+
+
+def tainted(e):
+    """True iff the term mentions a symbol whose name carries the secret tag (memoised on the AST id)."""
+    k = e.get_id()
+    hit = _TAINT.get(k)
+    if hit is not None:
+        return hit[1]
+    if e.num_args() == 0:
+        r = SECRET_TAG in e.decl().name() if not is_bv_value(e) and e.decl().arity() == 0 else False
+    else:
+        r = any(tainted(c) for c in e.children())
+    _TAINT[k] = (e, r)
+    return r
+
+
+def fresh_like(w, srcs, tag='h'):
+    """fresh unknown that inherits the secret tag from the values it was computed from"""
+    return fresh(w, tag + (SECRET_TAG if any(tainted(x) for x in srcs if x is not None) else ''))
 
 
 _fresh = itertools.count()
@@ -136,23 +160,32 @@ class CellRegion:
         self.cells[off] = (val, n)
 
     def fetch(self, off, n):
+        """-> (term or None, [terms overlapping the range]) ; exact match, containment in a larger cell, or concrete composition"""
         c = self.cells.get(off)
         if c is not None and c[1] == n:
-            return c[0]
+            return c[0], ()
         if c is not None and c[1] > n:
-            return Extract(8 * n - 1, 0, c[0])
+            return Extract(8 * n - 1, 0, c[0]), ()
+        over = []
+        for o in range(off - 63, off + n):
+            cc_ = self.cells.get(o)
+            if cc_ is not None and o + cc_[1] > off and o < off + n:
+                if o <= off and o + cc_[1] >= off + n:
+                    lo = 8 * (off - o)
+                    return Extract(lo + 8 * n - 1, lo, cc_[0]), ()      # contained in a larger cell
+                over.append(cc_[0])
         # compose from smaller concrete cells if possible
         acc, k = 0, 0
         while k < n:
             c = self.cells.get(off + k)
             if c is None:
-                return None
+                return None, over
             v = conc(c[0])
             if v is None or k + c[1] > n:
-                return None
+                return None, over
             acc |= v << (8 * k)
             k += c[1]
-        return BitVecVal(acc, 8 * n)
+        return BitVecVal(acc, 8 * n), ()
 
     def signature(self, absfn):
         return tuple(sorted((o, n, absfn(v)) for o, (v, n) in self.cells.items()))
@@ -216,6 +249,8 @@ class Engine:
         self.on_addr = None        # hook(state, ins, addr_term, nbytes, is_store)
         self.paths_pruned = 0
         self.memo = None           # set for sweep-mode state merging
+        self.got = {}
+        self.track_taint = False   # sweep mode: inherit the secret tag through havoc'd destinations (C19)
 
     # ------------------------------------------------------------------ solver
     def check(self, st, extra=None):
@@ -265,8 +300,8 @@ class Engine:
         if c is not None and self.mode == 'sweep':
             rg = self.find_region(st, c, n)
             if isinstance(rg, CellRegion):
-                val = rg.fetch(c - rg.base, n)
-                return val if val is not None else fresh(8 * n, 'ld')
+                val, over = rg.fetch(c - rg.base, n)
+                return val if val is not None else fresh_like(8 * n, over, 'ld')
         vals = [c] if c is not None else self.addr_values(st, e)
         res = None
         for v in vals:
@@ -296,13 +331,13 @@ class Engine:
         if c is not None and self.mode == 'sweep':
             rg = self.find_region(st, c, n)
             if isinstance(rg, CellRegion):
-                rg.put(c - rg.base, n, val if small(val) else fresh(8 * n, 'bigm'))
+                rg.put(c - rg.base, n, val if small(val) else fresh_like(8 * n, [val], 'bigm'))
                 return
             if rg is None:
                 return
         vals = [c] if c is not None else self.addr_values(st, e)
         if self.mode == 'sweep' and not small(val):
-            val = fresh(8 * n, 'bigm')
+            val = fresh_like(8 * n, [val], 'bigm')
         else:
             val = simp(val)
         for v in vals:
@@ -326,6 +361,22 @@ class Engine:
                 best = (d, '%s%+d' % (r.name, v - r.base))
         return best[1] if best else '?'
 
+    GOT_BASE = 0x6c0000
+
+    def got_slot(self, st, sym):
+        """PIC code: [rip + sym@GOTPCREL] is a slot holding the ADDRESS of sym."""
+        idx = self.got.setdefault(sym, len(self.got))
+        rg = st.region('got')
+        if rg is None:
+            rg = Region('got', self.GOT_BASE, 8192, writable=False)
+            st.regions.append(rg)
+        a = self.o.sym_addr(sym)
+        if a is None:
+            a = self.o.ext_address(sym)
+        for i in range(8):
+            rg.bytes[8 * idx + i] = BitVecVal((a >> (8 * i)) & 0xff, 8)
+        return self.GOT_BASE + 8 * idx
+
     # ------------------------------------------------------------------ operands
     def ea(self, st, ins, op):
         acc = bv(op.disp, 64)
@@ -336,6 +387,8 @@ class Engine:
                 if d >= 1 << 63:
                     d -= 1 << 64
                 return bv(self.o.TEXT_BASE + ins.next + d, 64)
+            if 'GOT' in ins.reloc[1]:
+                return bv(self.got_slot(st, ins.reloc[2]), 64)
             tgt, sym = self.o.rip_target(ins)
             if tgt is None:
                 raise Unsupported('rip-relative reference to undefined symbol %s at %x' % (sym, ins.addr))
@@ -360,7 +413,7 @@ class Engine:
     def putg(self, st, op, v):
         i, w, hi = op.reg, op.width, op.hi
         if self.mode == 'sweep' and not small(v):
-            v = fresh(w, 'big')      # sweep mode: data-flow terms that keep growing are abstracted to "unknown"
+            v = fresh_like(w, [v], 'big')      # sweep mode: data-flow terms that keep growing are abstracted to "unknown" (secret tag kept)
         else:
             v = simp(v)
         if w == 64:
@@ -419,7 +472,7 @@ class Engine:
     # ------------------------------------------------------------------ flags
     def set_flags_arith(self, st, kind, a, b, r, w, cin=None):
         if self.mode == 'sweep' and not (small(a) and small(b)):
-            st.flags = None
+            st.flags = 'S' if (tainted(a) or tainted(b)) else None
             return
         st.flags = (kind, a, b, r, w, cin)
 
@@ -427,6 +480,8 @@ class Engine:
         fl = st.flags
         if fl is None:
             return Bool('flag!%d' % next(_fresh))
+        if fl == 'S':
+            return Bool('flag%s!%d' % (SECRET_TAG, next(_fresh)))
         if isinstance(fl, dict):
             v = fl.get(f)
             return v if v is not None else Bool('flag!%d' % next(_fresh))
@@ -579,11 +634,22 @@ class Engine:
         for old in seen:
             ok = True
             for k, v in old.items():
-                if v != '?' and gen.get(k, '?') != v:
+                nv = gen.get(k, '?')
+                if v == '?S':
+                    continue                      # secret unknown covers everything
+                if v == '?':
+                    if nv == '?S':
+                        ok = False
+                        break
+                    continue                      # public unknown covers public values
+                if nv != v:
                     ok = False
                     break
             if ok:
-                # cells/regs absent from the old state are unknown there (= cover anything)
+                # cells/regs absent from the old state are unknown-public there: they do not cover a secret value
+                if any(v == '?S' and k not in old for k, v in gen.items()):
+                    ok = False
+            if ok:
                 return True
         seen.append(gen)
         if len(seen) > 64:
@@ -598,4 +664,4 @@ class Engine:
             s = e.sexpr()
             if '!' not in s and any(k in s for k in self.KEEP):
                 return s
-        return '?'
+        return '?S' if (self.track_taint and tainted(e)) else '?'
